@@ -5,7 +5,7 @@ from .framework import classify
 
 
 class Pools:
-    def __init__(self, seed, n_gen=40, n_viol=40, n_cut=40, corpus_limit=None, tag="pool", n_comment=24, depth_family=False, enc_family=False):
+    def __init__(self, seed, n_gen=40, n_viol=40, n_cut=40, corpus_limit=None, tag="pool", n_comment=24, depth_family=False, enc_family=False, big_family=False):
         self.files = {}
         self.meta = {}
         self.groups = {}
@@ -20,7 +20,7 @@ class Pools:
             add("corpus_headed", name, workload.headed(name, content), f"corpus:{name}+header")
         # depth_family: files whose outcome depends on the depth of the caller's stack - only for engines whose reference and
         # variant runs share one call path, and never for fidelity samples against a real process
-        for name, content, tag_ in workload.specials(depth_family=depth_family, enc_family=enc_family):
+        for name, content, tag_ in workload.specials(depth_family=depth_family, enc_family=enc_family, big_family=big_family):
             add("special_" + tag_, name, content, f"special:{name}")
         gens = []
         for i in range(n_gen):
